@@ -992,10 +992,11 @@ fn gen_runs(rng: &mut Rng, nruns: usize, max_gap: usize, max_len: usize) -> (usi
 }
 
 pub fn run(rng: &mut Rng, out: &mut Out, thorough: bool, variant: &str) {
-    let mut em = Emit { out, strings: if thorough { 8 } else { 4 } };
+    // thorough volumes are bounded by the memory coqc needs to read a shard (about 0.5 GB per MB of case terms, 16 shards at once)
+    let mut em = Emit { out, strings: if thorough { 6 } else { 4 } };
     let mut files = Files::new();
-    let reps = if thorough { 5 } else { 1 };
-    let nent = if thorough { 3 } else { 1 };
+    let reps = if thorough { 3 } else { 1 };
+    let nent = if thorough { 2 } else { 1 };
 
     // ---- exhaustive call strings on every bit sequence of length <= 5 (double-ended iterator types)
     // quick: one build runs the full sweep, the others every third sequence
